@@ -11,10 +11,12 @@ ProgsIn == ndJsonDeserialize(IOEnv.PROGS)
 
 INSTANCE Shuttle WITH Progs <- ProgsIn, TrackWoken <- FALSE, SpuriousWakeups <- FALSE
 
-VARIABLES S
-vars == <<S>>
+VARIABLES S,     \* abstract state
+          hist   \* witness interleaving: <<code index, pc, "C" | "B">> per step (hidden from the fingerprint by VIEW)
+vars == <<S, hist>>
+View == S
 
-Init == \E p \in 1..Len(ProgsIn) : S = InitState(p)
+Init == \E p \in 1..Len(ProgsIn) : S = InitState(p) /\ hist = <<>>
 
 Returned(s, c) == \E t \in Tasks(s) : s.ix[t+1] = c /\ s.pc[t+1] > Len(Prog(s).tasks[c+1]) + 1
 
@@ -28,14 +30,14 @@ Next ==
   /\ S.panicked = ""
   /\ ~Ends(S)
   /\ \E t \in Live(S) :
-       \/ CanComplete(S, t) /\ S' = Record(Complete(S, t), S, t)
-       \/ CanBlock(S, t) /\ S' = Block(S, t)
-       \/ PanicKind(S, t) # "" /\ S' = [S EXCEPT !.panicked = PanicKind(S, t)]
+       \/ CanComplete(S, t) /\ S' = Record(Complete(S, t), S, t) /\ hist' = Append(hist, <<S.ix[t+1], S.pc[t+1], "C">>)
+       \/ CanBlock(S, t) /\ S' = Block(S, t) /\ hist' = Append(hist, <<S.ix[t+1], S.pc[t+1], "B">>)
+       \/ PanicKind(S, t) # "" /\ S' = [S EXCEPT !.panicked = PanicKind(S, t)] /\ hist' = Append(hist, <<S.ix[t+1], S.pc[t+1], "P">>)
 
 Spec == Init /\ [][Next]_vars
 
 Outcome(s, v) == [p |-> Prog(s).id, obs |-> s.obs, v |-> v,
-                  ret |-> [c \in 1..NCode(s) |-> Returned(s, c - 1)]]
+                  ret |-> [c \in 1..NCode(s) |-> Returned(s, c - 1)], w |-> hist]
 
 \* an execution may end here: a task panicked, or nothing can make progress
 OutInv ==
